@@ -103,7 +103,7 @@ func verifC13Path(maxMain, maxSide, maxMaxLen int) {
 // parent was confirmed on the way becomes that element, invalid proofs /
 // unknown bases / vanished elements give an error and never a panic.
 //
-//verif:harness prop=C13 tier=quick replay=interp z3timeout=400 require=rebased,rejected-proof,vanished bounds="chain b0 <- b1 <- b2 (b1 confirms P or nothing) and a fork b0 <- f1; set [X, P, C child of P] (+ optionally Y spending an output created in b1); from/to in {b0,b1,b2,f1}; symbolic invalid-proof flags"
+//verif:harness prop=C13 tier=quick replay=interp z3timeout=400 require=rebased,rejected-proof,vanished bounds="chain b0 <- b1 <- b2 (b1 confirms P or nothing) and a fork b0 <- f1; set [X, P, C child of P] or [X, C] without the parent (+ optionally Y spending an output created in b1); from/to in {b0,b1,b2,f1}; symbolic invalid-proof flags"
 func VerifH_C13_rebase() {
 	newAbsPool()
 	w := &poolWorld{c: newAbsChain(), next: 1}
@@ -152,6 +152,10 @@ func VerifH_C13_rebase() {
 	} else if from.Nonce != b0.Nonce && confirm {
 		// P is confirmed at the basis: a set valid there cannot contain it
 		set = []types.V2Transaction{x}
+	} else if vapi.Bool("child-without-its-parent") {
+		// the child is rebased on its own (the RHP4 host rebases only the
+		// renter's transaction; a child is re-submitted alone with its old basis)
+		set = []types.V2Transaction{x, ch}
 	}
 	for i := range set {
 		absP.elemBad[v2tag(set[i])] = vapi.Bool("elemBad")
